@@ -1,6 +1,8 @@
 package issues
 
 import (
+	"maps"
+	"slices"
 	"sort"
 
 	"github.com/nyaruka/gocommon/i18n"
@@ -58,8 +60,9 @@ func Check(sa flows.SessionAssets, flow flows.Flow, tpls []flows.ExtractedTempla
 		issues = append(issues, i)
 	}
 
-	for _, fn := range RegisteredTypes {
-		fn(sa, flow, tpls, refs, report)
+	// run checks in order of their type names so that issue order doesn't depend on map iteration order
+	for _, typeName := range slices.Sorted(maps.Keys(RegisteredTypes)) {
+		RegisteredTypes[typeName](sa, flow, tpls, refs, report)
 	}
 
 	// sort issues by node order
